@@ -51,6 +51,7 @@ const ALL_HASHERS: &[HasherKind] = &[
     HasherKind::Xx,
     HasherKind::Keyed,
     HasherKind::Colliding,
+    HasherKind::Coarse,
 ];
 
 fn base_ops() -> Vec<(&'static str, u32)> {
